@@ -84,56 +84,46 @@ Fixpoint lpm_rev (hs : list (name * N)) (rn : name) : option N :=
   end.
 Definition lpm (hs : list (name * N)) (nm : name) : option N := lpm_rev hs (rev nm).
 
-(* callbacks of one Data arrival: each must be a Data result carrying this packet, for a pending Interest that the
-   packet satisfies; at most one per Interest *)
-Fixpoint check_data_cbs (pend : list sint) (dn : name) (dd : key) (o : list obs) : sum (list sint) verdict :=
-  match o with
-  | [] => inl pend
-  | OCb p (RData dn' dd') :: r =>
-      match find_pending pend p with
-      | None => inr (VNotPending p)
-      | Some i =>
-          if name_eqb dn' dn && N.eqb dd' dd && satisfies i dn dd
-          then check_data_cbs (remove_pending pend p) dn dd r
-          else inr (VDataWrong p)
-      end
-  | OCb p _ :: _ => inr (VDataWrong p)
-  | OPanic :: _ => inr VPanic
-  | _ :: _ => inr VUnexpected
-  end.
-
-Fixpoint check_nack_cbs (pend : list sint) (nm : name) (dig : option key) (reason : N) (o : list obs)
+(* the callbacks observed while one event was processed: each must be for a pending Interest (so none is resolved
+   twice) and its result must be acceptable for that Interest ([ok]); a resolved Interest stops being pending *)
+Fixpoint check_cbs (ok : sint -> result -> bool) (bad : nat -> verdict) (pend : list sint) (o : list obs)
   : sum (list sint) verdict :=
   match o with
   | [] => inl pend
-  | OCb p (RNack reason') :: r =>
+  | OCb p r :: rest =>
       match find_pending pend p with
       | None => inr (VNotPending p)
-      | Some i =>
-          if name_eqb (s_name i) nm && opt_key_eqb (s_dig i) dig && N.eqb reason' reason
-          then check_nack_cbs (remove_pending pend p) nm dig reason r
-          else inr (VNackWrong p)
+      | Some i => if ok i r then check_cbs ok bad (remove_pending pend p) rest else inr (bad p)
       end
-  | OCb p _ :: _ => inr (VNackWrong p)
   | OPanic :: _ => inr VPanic
   | _ :: _ => inr VUnexpected
   end.
 
-Fixpoint check_timeout_cbs (pend : list sint) (now : time) (o : list obs) : sum (list sint) verdict :=
-  match o with
-  | [] => inl pend
-  | OCb p (RTimeout t) :: r =>
-      match find_pending pend p with
-      | None => inr (VNotPending p)
-      | Some i =>
-          if N.eqb t now && N.leb (s_deadline i) now
-          then check_timeout_cbs (remove_pending pend p) now r
-          else inr (VTimeoutEarly p)
-      end
-  | OCb p _ :: _ => inr (VNotPending p)
-  | OPanic :: _ => inr VPanic
-  | _ :: _ => inr VUnexpected
+(* a Data result must carry the arriving packet, and the packet must satisfy the Interest *)
+Definition data_ok (dn : name) (dd : key) (i : sint) (r : result) : bool :=
+  match r with
+  | RData dn' dd' => name_eqb dn' dn && N.eqb dd' dd && satisfies i dn dd
+  | _ => false
   end.
+(* "a Nack for that name": same name, same implicit digest *)
+Definition nack_ok (nm : name) (dig : option key) (reason : N) (i : sint) (r : result) : bool :=
+  match r with
+  | RNack reason' => name_eqb (s_name i) nm && opt_key_eqb (s_dig i) dig && N.eqb reason' reason
+  | _ => false
+  end.
+(* "a timeout no earlier than its lifetime" *)
+Definition timeout_ok (now : time) (i : sint) (r : result) : bool :=
+  match r with
+  | RTimeout t => N.eqb t now && N.leb (s_deadline i) now
+  | _ => false
+  end.
+
+Definition check_data_cbs (pend : list sint) (dn : name) (dd : key) (o : list obs) :=
+  check_cbs (data_ok dn dd) VDataWrong pend o.
+Definition check_nack_cbs (pend : list sint) (nm : name) (dig : option key) (reason : N) (o : list obs) :=
+  check_cbs (nack_ok nm dig reason) VNackWrong pend o.
+Definition check_timeout_cbs (pend : list sint) (now : time) (o : list obs) :=
+  check_cbs (timeout_ok now) VTimeoutEarly pend o.
 
 Definition with_pending (s : sstate) (l : list sint) : sstate :=
   mkS (sp_now s) l (sp_npid s) (sp_handlers s) (sp_inc s).
